@@ -31,6 +31,8 @@
 #include <nitro/except/raise.hpp>
 
 #include <array>
+#include <iterator>
+#include <memory>
 #include <type_traits>
 
 namespace nitro
@@ -266,9 +268,9 @@ namespace lang
             return &data_[0];
         }
 
-        constexpr iterator rbegin() noexcept
+        constexpr reverse_iterator rbegin() noexcept
         {
-            return &data_[size_ - 1];
+            return reverse_iterator(end());
         }
 
         constexpr iterator end() noexcept
@@ -276,9 +278,9 @@ namespace lang
             return &data_[size_];
         }
 
-        constexpr iterator rend() noexcept
+        constexpr reverse_iterator rend() noexcept
         {
-            return &data_[-1];
+            return reverse_iterator(begin());
         }
 
         constexpr const_iterator begin() const noexcept
@@ -286,9 +288,9 @@ namespace lang
             return &data_[0];
         }
 
-        constexpr const_iterator rbegin() const noexcept
+        constexpr const_reverse_iterator rbegin() const noexcept
         {
-            return &data_[size_ - 1];
+            return const_reverse_iterator(end());
         }
 
         constexpr const_iterator end() const noexcept
@@ -296,9 +298,9 @@ namespace lang
             return &data_[size_];
         }
 
-        constexpr const_iterator rend() const noexcept
+        constexpr const_reverse_iterator rend() const noexcept
         {
-            return &data_[-1];
+            return const_reverse_iterator(begin());
         }
 
         constexpr const_iterator cbegin() const noexcept
@@ -306,9 +308,9 @@ namespace lang
             return &data_[0];
         }
 
-        constexpr const_iterator crbegin() const noexcept
+        constexpr const_reverse_iterator crbegin() const noexcept
         {
-            return &data_[size_ - 1];
+            return const_reverse_iterator(cend());
         }
 
         constexpr const_iterator cend() const noexcept
@@ -316,9 +318,9 @@ namespace lang
             return &data_[size_];
         }
 
-        constexpr const_iterator crend() const noexcept
+        constexpr const_reverse_iterator crend() const noexcept
         {
-            return &data_[-1];
+            return const_reverse_iterator(cbegin());
         }
 
         constexpr void erase(iterator pos)
